@@ -28,6 +28,7 @@ type built struct {
 	def   *schema.SchemaDefinition
 	types map[string]schema.NamedType
 	dirs  map[string]*schema.DirectiveDefinition
+	tied  int // how often the model's registries / acceptance were compared for this build
 }
 
 func customScalar(name, desc string) *schema.ScalarType {
